@@ -154,6 +154,22 @@ class ErrorContext(Protocol):
         raise NotImplementedError
 
 
+_LINE_END = re.compile(r"\r\n|\r|\n")
+
+
+def _split_lines(contents: str) -> list[str]:
+    """Split source code into lines the way the Python parser numbers them.
+
+    Unlike str.splitlines(), this does not treat a form feed or a Unicode line
+    separator as the end of a line.
+
+    """
+    lines = _LINE_END.split(contents)
+    if lines and not lines[-1]:
+        lines.pop()
+    return [line + "\n" for line in lines]
+
+
 class BaseNodeVisitor(ast.NodeVisitor):
     """Base Visitor class that can run on all files in a/ and show detailed error messages."""
 
@@ -222,7 +238,7 @@ class BaseNodeVisitor(ast.NodeVisitor):
         changes = collections.defaultdict(list)
         with qcore.override(self.__class__, "_changes_for_fixer", changes):
             result = self.check()
-        lines = [line + "\n" for line in self.contents.splitlines()]
+        lines = _split_lines(self.contents)
         if self.filename in changes:
             lines = self._apply_changes_to_lines(changes[self.filename], lines)
         return result, "".join(lines)
@@ -234,7 +250,7 @@ class BaseNodeVisitor(ast.NodeVisitor):
 
     @qcore.caching.cached_per_instance()
     def _lines(self) -> list[str]:
-        return [line + "\n" for line in self.contents.splitlines()]
+        return _split_lines(self.contents)
 
     @qcore.caching.cached_per_instance()
     def has_file_level_ignore(
